@@ -41,19 +41,38 @@ structure CMsgField where
   idx : Str
   ty : CType
   name : Str
+  /-- a trailing `// comment` on the field's line: the parser skips it; the formatter moves it to a line of
+      its own, where it becomes a doc comment of the next field (finding F2) — so it is part of the language
+      of the parser theorems only -/
+  trail : Option Str := none
 
-/-- An enum member `Name = literal;`, optionally preceded by a `[deprecated("msg")]` line. -/
+/-- The tokens of an enum member's value: in an ordinary enum a single literal; in a `[flags]` enum an
+    expression over literals, earlier members, `|`, `&`, `<<`, `>>` and parentheses. -/
+inductive ETok where
+  | lit (s : Str)
+  | ref (name : Str)
+  | bar | amp | shl | shr | lp | rp
+
+/-- An enum member `Name = value;`, optionally preceded by doc lines and a `[deprecated("msg")]` line. -/
 structure CEnumOpt where
   doc : List Str := []
   dep : Option Str
   name : Str
-  lit : Str
+  val : List ETok
 
 /-- The value of a constant: an integer literal for a type `ty`, `true` / `false`, or a plain string. -/
 inductive CConstV where
   | int (ty lit : Str)
   | bool (v : Bool)
   | str (body : Str)
+  /-- a float literal `[-]ip.fp` for a float type -/
+  | float (ty : Str) (neg : Bool) (ip fp : Str)
+  /-- `inf`, `-inf`, `nan` for a float type -/
+  | inf (ty : Str)
+  | negInf (ty : Str)
+  | nan (ty : Str)
+  /-- a guid in quotes: 32 characters besides the dashes -/
+  | guid (body : Str)
 
 /-- A union member `idx -> struct Name { … }` / `idx -> message Name { … }`, optionally preceded by a
     `[deprecated("msg")]` line. -/
@@ -132,24 +151,74 @@ def enumBase : Option Str → Str
 /-- width and signedness of an enum's base type (`decodeIntegerType`) -/
 def enumBits (base : Option Str) : Nat × Bool := (decodeInteger (enumBase base)).getD (32, true)
 
-/-- an enum member: the literal read with `strconv.ParseUint` / `ParseInt` (base 0) in the width of the
-    base type; unsigned enums store it in `uvalue`, signed ones in `value` -/
-def enumOptOf (bits : Nat) (unsigned : Bool) (o : CEnumOpt) : EnumOption :=
+def ETok.tok : ETok → Token
+  | .lit s => { kind := .intLit, concrete := s }
+  | .ref n => { kind := .ident, concrete := n }
+  | .bar => { kind := .vbar, concrete := [124] }
+  | .amp => { kind := .amp, concrete := [38] }
+  | .shl => { kind := .dblLeft, concrete := [60, 60] }
+  | .shr => { kind := .dblRight, concrete := [62, 62] }
+  | .lp => { kind := .openParen, concrete := [40] }
+  | .rp => { kind := .closeParen, concrete := [41] }
+
+/-- the value of an enum member (`readEnumOptionValue`): in an ordinary enum the literal read with
+    `strconv.ParseUint` / `ParseInt` (base 0) in the width of the base type; in a `[flags]` enum the model's
+    own `parseExpr` / `evalExpr` on the member's tokens, `prev` being the members before it. Unsigned enums
+    store the value in `uvalue` (second component), signed ones in `value` (first component). -/
+def enumVal (fl : Bool) (bits : Nat) (unsigned : Bool) (prev : List EnumOption) (val : List Token) : Option (Int × Nat) :=
+  if fl then
+    match parseExpr (val.length + 1) val with
+    | none => none
+    | some e =>
+      match evalExpr bits unsigned prev e with
+      | none => none
+      | some v => some (if unsigned then (0, v.toNat) else (v, 0))
+  else
+    match val with
+    | [tk] =>
+      if tk.kind == .intLit then
+        (if unsigned then (parseUint tk.concrete true bits).map (fun n => ((0 : Int), n))
+         else (parseInt tk.concrete true bits).map (fun n => (n, (0 : Nat))))
+      else none
+    | _ => none
+
+def enumOptOf (fl : Bool) (bits : Nat) (unsigned : Bool) (prev : List EnumOption) (o : CEnumOpt) : EnumOption :=
   { name := o.name, comment := docOf o.doc, depMsg := depMsgOf o.dep,
-    value := if unsigned then 0 else (parseInt o.lit true bits).getD 0,
-    uvalue := if unsigned then (parseUint o.lit true bits).getD 0 else 0,
+    value := ((enumVal fl bits unsigned prev (o.val.map ETok.tok)).getD (0, 0)).1,
+    uvalue := ((enumVal fl bits unsigned prev (o.val.map ETok.tok)).getD (0, 0)).2,
     deprecated := o.dep.isSome }
+
+/-- the members of an enum, each evaluated with the members before it in scope -/
+def enumOptsOf (fl : Bool) (bits : Nat) (unsigned : Bool) : List EnumOption → List CEnumOpt → List EnumOption
+  | acc, [] => acc
+  | acc, o :: os => enumOptsOf fl bits unsigned (acc ++ [enumOptOf fl bits unsigned acc o]) os
+
+def kwGuid : Str := [103, 117, 105, 100]
+def kwInf : Str := [105, 110, 102]
+def kwNan : Str := [110, 97, 110]
+
+def floatText (neg : Bool) (ip fp : Str) : Str := (if neg then [45] else []) ++ (ip ++ 46 :: fp)
 
 def constTy : CConstV → Str
   | .int ty _ => ty
   | .bool _ => kwBool
   | .str _ => kwString
+  | .float ty .. => ty
+  | .inf ty => ty
+  | .negInf ty => ty
+  | .nan ty => ty
+  | .guid _ => kwGuid
 
 /-- the text of a constant's value, as the `File` stores it (string literals with their quotes) -/
 def constVal : CConstV → Str
   | .int _ lit => lit
   | .bool v => if v then kwTrue else kwFalse
   | .str body => 34 :: (body ++ [34])
+  | .float _ neg ip fp => floatText neg ip fp
+  | .inf _ => strOf "math.Inf(1)"
+  | .negInf _ => strOf "math.Inf(-1)"
+  | .nan _ => strOf "math.NaN()"
+  | .guid body => 34 :: (body ++ [34])
 
 def CUMember.doc : CUMember → List Str
   | .struct c .. => c
@@ -182,9 +251,10 @@ def addDefC (F : File) (cs : List Str) : CDef → File
   | .union op name members =>
     { F with unions := F.unions ++
         [{ name := name, comment := joinLines cs, fields := members.map memberOf, opCode := opVal op }] }
-  | .enum _ name base opts =>
+  | .enum fl name base opts =>
     { F with enums := F.enums ++
-        [{ name := name, comment := joinLines cs, options := opts.map (enumOptOf (enumBits base).1 (enumBits base).2),
+        [{ name := name, comment := joinLines cs,
+           options := enumOptsOf fl (enumBits base).1 (enumBits base).2 [] opts,
            simpleType := enumBase base, unsigned := (enumBits base).2 }] }
   | .const name v =>
     { F with consts := F.consts ++
@@ -223,18 +293,37 @@ def OpLitOk : OpLit → Prop
 
 /-- the index is a decimal literal denoting a number in 1 … 255 -/
 def CMsgFieldOk (g : CMsgField) : Prop :=
+  (∀ c, g.trail = some c → docLineOk c = true) ∧
   (∀ c ∈ g.doc, bodyDocOk c) ∧ (∀ m, g.dep = some m → strBodyOk m = true) ∧ numLitOk g.idx = true ∧
   (∃ n, parseUint g.idx false 8 = some n ∧ n ≠ 0) ∧ CTypeOk g.ty ∧ IdentOk g.name = true
 
-/-- the literal fits the base type -/
-def CEnumOptOk (bits : Nat) (unsigned : Bool) (o : CEnumOpt) : Prop :=
-  (∀ c ∈ o.doc, docLineOk c = true) ∧ (∀ m, o.dep = some m → strBodyOk m = true) ∧ IdentOk o.name = true ∧ numLitOk o.lit = true ∧
-  (if unsigned then (parseUint o.lit true bits).isSome = true else (parseInt o.lit true bits).isSome = true)
+def ETokOk : ETok → Prop
+  | .lit s => numLitOk s = true
+  | .ref n => IdentOk n = true
+  | _ => True
+
+/-- an enum member whose value the parser can evaluate (the literal fits the base type; the expression of a
+    `[flags]` member parses and evaluates, given the members `prev` before it) -/
+def CEnumOptOk (fl : Bool) (bits : Nat) (unsigned : Bool) (prev : List EnumOption) (o : CEnumOpt) : Prop :=
+  (∀ c ∈ o.doc, docLineOk c = true) ∧ (∀ m, o.dep = some m → strBodyOk m = true) ∧ IdentOk o.name = true ∧
+  (∀ e ∈ o.val, ETokOk e) ∧ (enumVal fl bits unsigned prev (o.val.map ETok.tok)).isSome = true
+
+def CEnumOptsOk (fl : Bool) (bits : Nat) (unsigned : Bool) : List EnumOption → List CEnumOpt → Prop
+  | _, [] => True
+  | acc, o :: os =>
+    CEnumOptOk fl bits unsigned acc o ∧ CEnumOptsOk fl bits unsigned (acc ++ [enumOptOf fl bits unsigned acc o]) os
 
 def CConstVOk : CConstV → Prop
   | .int ty lit => IdentOk ty = true ∧ numLitOk lit = true ∧ (isUintName ty || isIntName ty || isFloatName ty) = true
   | .bool _ => True
   | .str body => strBodyOk body = true
+  | .float ty _ ip fp =>
+    IdentOk ty = true ∧ (isUintName ty || isIntName ty) = false ∧ isFloatName ty = true ∧
+    ip ≠ [] ∧ ip.all isNumeric = true ∧ fp ≠ [] ∧ fp.all isNumeric = true
+  | .inf ty => IdentOk ty = true ∧ (isUintName ty || isIntName ty) = false ∧ isFloatName ty = true
+  | .negInf ty => IdentOk ty = true ∧ (isUintName ty || isIntName ty) = false ∧ isFloatName ty = true
+  | .nan ty => IdentOk ty = true ∧ (isUintName ty || isIntName ty) = false ∧ isFloatName ty = true
+  | .guid body => strBodyOk body = true ∧ (body.filter (· != 0x2d)).length = 32
 
 /-- a union member: the index is a decimal literal denoting a number in 0 … 255; the body is a struct or a
     message body -/
@@ -256,10 +345,10 @@ def CDefOk : CDef → Prop
   | .union op name members =>
     (∀ o, op = some o → OpLitOk o) ∧ IdentOk name = true ∧ (∀ m ∈ members, CUMemberOk m) ∧
     (members.map (fun m => idxVal m.idx)).Nodup
-  | .enum _ name base opts =>
+  | .enum fl name base opts =>
     IdentOk name = true ∧
     (∀ b, base = some b → IdentOk b = true ∧ (isUintName b || isIntName b) = true ∧ (decodeInteger b).isSome = true) ∧
-    ∀ o ∈ opts, CEnumOptOk (enumBits base).1 (enumBits base).2 o
+    CEnumOptsOk fl (enumBits base).1 (enumBits base).2 [] opts
   | .const name v => IdentOk name = true ∧ CConstVOk v
   | .import_ path => strBodyOk path = true
 
@@ -281,7 +370,21 @@ def noDocAfterConst : CFile → Prop
   | a :: b :: r => (a.d.isConst = true → b.doc = []) ∧ noDocAfterConst (b :: r)
   | _ => True
 
-def CFileOk (f : CFile) : Prop := (∀ d ∈ f, CTopOk d) ∧ noDocAfterConst f
+/-- Well-formed schemas for the parser theorems. -/
+def CFileOkP (f : CFile) : Prop := (∀ d ∈ f, CTopOk d) ∧ noDocAfterConst f
+
+/-- no trailing comment after a message field (the formatter would move it: finding F2) -/
+def CDef.noMovedComments : CDef → Prop
+  | .message _ _ fields => ∀ g ∈ fields, g.trail = none
+  | .union _ _ members => ∀ m ∈ members,
+      (match m with
+       | .message _ _ _ _ fields => ∀ g ∈ fields, g.trail = none
+       | _ => True)
+  | _ => True
+
+/-- Well-formed schemas for the formatter theorems (and the parser theorems): moreover no comment that the
+    formatter would move. -/
+def CFileOk (f : CFile) : Prop := CFileOkP f ∧ ∀ d ∈ f, d.d.noMovedComments
 
 /-! ### tokens -/
 
@@ -371,7 +474,7 @@ def structLex (s ind : List Byte) (name : Str) (fields : List CField) (r : List 
 
 def msgFieldLex (ind : List Byte) (g : CMsgField) (r : List Lexeme) : List Lexeme :=
   docLex ind g.doc (depLex ind g.dep (⟨ind, tNum g.idx⟩ :: ⟨[32], tArrow⟩ ::
-    typeLex g.ty [32] (⟨[32], tId g.name⟩ :: ⟨[], tSemi⟩ :: ⟨[], tNl⟩ :: r)))
+    typeLex g.ty [32] (⟨[32], tId g.name⟩ :: ⟨[], tSemi⟩ :: trailLex g.trail r)))
 
 /-- the field lines and the closing line of a message body -/
 def msgFieldsLex (ind : List Byte) : List CMsgField → List Lexeme → List Lexeme
@@ -381,9 +484,15 @@ def msgFieldsLex (ind : List Byte) : List CMsgField → List Lexeme → List Lex
 def messageLex (s ind : List Byte) (name : Str) (fields : List CMsgField) (r : List Lexeme) : List Lexeme :=
   ⟨s, ⟨.kMessage, kwMessage⟩⟩ :: ⟨[32], tId name⟩ :: ⟨[32], tOpen⟩ :: ⟨[], tNl⟩ :: msgFieldsLex ind fields r
 
+/-- the tokens of a member's `= value`, spaced as the formatter spaces them: one blank before every token
+    except directly after `(` and directly before `)` (`prev`: the kind of the token before) -/
+def spLex (prev : TK) : List Token → List Lexeme → List Lexeme
+  | [], r => r
+  | tk :: ts, r => ⟨if prev != .openParen && tk.kind != .closeParen then [32] else [], tk⟩ :: spLex tk.kind ts r
+
 def enumOptLex (o : CEnumOpt) (r : List Lexeme) : List Lexeme :=
   docLex [9] o.doc (depLex [9] o.dep
-    (⟨[9], tId o.name⟩ :: ⟨[32], tEq⟩ :: ⟨[32], tNum o.lit⟩ :: ⟨[], tSemi⟩ :: ⟨[], tNl⟩ :: r))
+    (⟨[9], tId o.name⟩ :: spLex .ident (tEq :: o.val.map ETok.tok) (⟨[], tSemi⟩ :: ⟨[], tNl⟩ :: r)))
 
 def enumOptsLex : List CEnumOpt → List Lexeme → List Lexeme
   | [], r => ⟨[], tClose⟩ :: ⟨[], tNl⟩ :: r
@@ -414,6 +523,11 @@ def constValTok : CConstV → Token
   | .int _ lit => tNum lit
   | .bool v => if v then ⟨.kTrue, kwTrue⟩ else ⟨.kFalse, kwFalse⟩
   | .str body => tStr body
+  | .float _ neg ip fp => { kind := .floatLit, concrete := floatText neg ip fp }
+  | .inf _ => { kind := .kInf, concrete := kwInf }
+  | .negInf _ => { kind := .negInf, concrete := [45, 105, 110, 102] }
+  | .nan _ => { kind := .kNaN, concrete := kwNan }
+  | .guid body => tStr body
 
 def defLex : CDef → List Lexeme → List Lexeme
   | .struct op ro name fields, r =>
@@ -492,14 +606,19 @@ def opText : Option OpLit → Str
 def msgFieldsText (ind : Str) : List CMsgField → Str
   | [] => ind.dropLast ++ [125, 10]
   | g :: gs =>
-    cmtText ind g.doc ++ depText ind g.dep ++ ind ++ g.idx ++ [32, 45, 62, 32] ++ typeText g.ty ++ [32] ++ g.name ++ [59, 10] ++
-      msgFieldsText ind gs
+    cmtText ind g.doc ++ depText ind g.dep ++ ind ++ g.idx ++ [32, 45, 62, 32] ++ typeText g.ty ++ [32] ++ g.name ++ [59] ++
+      trailText g.trail ++ msgFieldsText ind gs
 
-/-- the member lines `Name = literal;` and the closing line of an enum -/
+def spText (prev : TK) : List Token → Str
+  | [] => []
+  | tk :: ts => (if prev != .openParen && tk.kind != .closeParen then [32] else []) ++ tk.concrete ++ spText tk.kind ts
+
+/-- the member lines `Name = value;` and the closing line of an enum -/
 def enumOptsText : List CEnumOpt → Str
   | [] => [125, 10]
   | o :: os =>
-    cmtText [9] o.doc ++ depText [9] o.dep ++ [9] ++ o.name ++ [32, 61, 32] ++ o.lit ++ [59, 10] ++ enumOptsText os
+    cmtText [9] o.doc ++ depText [9] o.dep ++ [9] ++ o.name ++ spText .ident (tEq :: o.val.map ETok.tok) ++ [59, 10] ++
+      enumOptsText os
 
 def memberText : CUMember → Str
   | .struct doc dep idx name fields =>
@@ -575,7 +694,7 @@ def msgFieldsLen : List CMsgField → Nat
   | [] => 2
   | g :: gs => msgFieldLen g + msgFieldsLen gs
 
-def enumOptLen (o : CEnumOpt) : Nat := o.doc.length + depLen o.dep + 5
+def enumOptLen (o : CEnumOpt) : Nat := o.doc.length + depLen o.dep + 4 + o.val.length
 
 def enumOptsLen : List CEnumOpt → Nat
   | [] => 2
@@ -653,14 +772,25 @@ theorem renderC_msgFieldsLex (ind : List Byte) : ∀ (gs : List CMsgField) (r : 
     renderC (msgFieldsLex ind gs r) = msgFieldsText ind gs ++ renderC r
   | [], r => by simp [msgFieldsLex, msgFieldsText, renderC]
   | g :: gs, r => by
-    simp [msgFieldsLex, msgFieldLex, msgFieldsText, renderC, renderC_docLex, renderC_depLex, renderC_typeLex,
-      renderC_msgFieldsLex ind gs r]
+    simp [msgFieldsLex, msgFieldLex, msgFieldsText, renderC, renderC_docLex, renderC_trailLex, renderC_depLex,
+      renderC_typeLex, renderC_msgFieldsLex ind gs r]
+
+theorem renderC_spLex : ∀ (ts : List Token) (prev : TK) (r : List Lexeme),
+    renderC (spLex prev ts r) = spText prev ts ++ renderC r
+  | [], prev, r => by simp [spLex, spText]
+  | tk :: ts, prev, r => by simp [spLex, spText, renderC, renderC_spLex ts]
+
+@[simp] theorem len_spLex : ∀ (ts : List Token) (prev : TK) (r : List Lexeme),
+    (spLex prev ts r).length = ts.length + r.length
+  | [], prev, r => by simp [spLex]
+  | tk :: ts, prev, r => by simp [spLex, len_spLex ts]; omega
 
 theorem renderC_enumOptsLex : ∀ (os : List CEnumOpt) (r : List Lexeme),
     renderC (enumOptsLex os r) = enumOptsText os ++ renderC r
   | [], r => by simp [enumOptsLex, enumOptsText, renderC]
   | o :: os, r => by
-    simp [enumOptsLex, enumOptLex, enumOptsText, renderC, renderC_docLex, renderC_depLex, renderC_enumOptsLex os r]
+    simp [enumOptsLex, enumOptLex, enumOptsText, renderC, renderC_docLex, renderC_depLex, renderC_spLex,
+      renderC_enumOptsLex os r]
 
 theorem renderC_membersLex : ∀ (ms : List CUMember) (r : List Lexeme),
     renderC (membersLex ms r) = membersText ms ++ renderC r
